@@ -51,9 +51,9 @@ RULE = ("exhaustive: for each configuration (feature flags x scripted completer 
         "at least one coroutine segment ran between user actions")
 EXHAUSTIVE = True
 EXHAUSTIVE_SCOPE = {
-    "quick": "all schedules to depth 5-7 (per configuration) over insert/delete/cursor/next/previous/cancel/"
+    "quick": "all schedules to depth 5-9 (per configuration) over insert/delete/cursor/next/previous/cancel/"
              "start-completion/tab/validate/history-lines completion + task start + wake-up + cancellation of each coroutine kind; 21 configurations",
-    "thorough": "same alphabet, depth 7-9 per configuration; 21 configurations",
+    "thorough": "same alphabet, depth 7-11 per configuration; 21 configurations",
 }
 TRUSTED = ["harness/c15.py gates every await of the scripted completer/validator/suggester and compares "
            "(exception, text, cursor, complete_state, validation_state/error, suggestion, running flags, "
@@ -69,6 +69,9 @@ PARTIAL_SCOPE = ["ThreadedCompleter / ThreadedValidator / ThreadedAutoSuggest (t
                  "Document equality also compares the selection; selection_state is always None here",
                  "history navigation (working_index), yank/paste state, open_in_editor not modelled",
                  "CompleteEvent flags are passed through to the completer and ignored by the scripted one"]
+ANCHORS = ["src/prompt_toolkit/buffer.py", "src/prompt_toolkit/completion/base.py",
+           "src/prompt_toolkit/validation.py", "src/prompt_toolkit/auto_suggest.py",
+           "src/prompt_toolkit/key_binding/bindings/completion.py"]
 TECHNIQUE = "Lean 4 proof over an executable transition system + schedule-replay correspondence + oracle"
 
 # ------------------------------------------------------------------ scripted user code
@@ -650,17 +653,17 @@ def enum_configs(tier):
         out.append(({"cfg": dict(off), "comp": COMPS[name], "text": "a", "cur": 1},
                     ["ins_s:97", "hist", "prev_1_0", "startc_%d" % mode, "start_0", "rel_c"], 9, 11))
     # completer only, explicit start in each mode
-    for name, mode, dq, dt in (("ext2", 0, 6, 8), ("ext2", 3, 6, 8), ("noop1", 0, 6, 8), ("chg3", 1, 6, 8),
-                               ("chg3", 2, 6, 8), ("single_chg", 3, 6, 8), ("one", 3, 6, 8),
-                               ("dup3", 3, 6, 8), ("noop_then", 0, 6, 8), ("empty", 0, 6, 8)):
+    for name, mode, dq, dt in (("ext2", 0, 6, 7), ("ext2", 3, 6, 8), ("noop1", 0, 6, 7), ("chg3", 1, 6, 7),
+                               ("chg3", 2, 5, 7), ("single_chg", 3, 6, 8), ("one", 3, 6, 8),
+                               ("dup3", 3, 6, 8), ("noop_then", 0, 5, 7), ("empty", 0, 5, 7)):
         out.append(({"cfg": dict(off), "comp": COMPS[name], "text": "ab", "cur": 2},
                     A_USER + ["startc_%d" % mode, "tab"] + A_SCHED_C, dq, dt))
     # complete while typing (tasks created by insert_text), two pending tasks compete
     out.append(({"cfg": dict(off, cwt=1), "comp": COMPS["ext2"], "text": "a", "cur": 1},
-                A_USER + ["tab", "start_0", "start_1", "rel_c"], 6, 8))
+                A_USER + ["tab", "start_0", "start_1", "rel_c"], 6, 7))
     # validator only
     out.append(({"cfg": dict(off, hasV=1, vwt=1), "comp": [], "text": "ab", "cur": 2, "valid": [1, 3, 0]},
-                ["ins_s:97", "delb_1", "cur_-1", "cur_+1", "vsync", "start_0", "start_1", "rel_v"], 7, 9))
+                ["ins_s:97", "delb_1", "cur_-1", "cur_+1", "vsync", "start_0", "start_1", "rel_v"], 6, 8))
     # suggester only
     out.append(({"cfg": dict(off, hasS=1), "comp": [], "text": "ab", "cur": 2, "sugg": [1, 3, 0, "!"]},
                 ["ins_s:97", "delb_1", "cur_-1", "cur_+1", "start_0", "start_1", "rel_s"], 7, 9))
@@ -693,6 +696,57 @@ def enum_paths(skel, alphabet, depth, max_states=400000):
         return []
     parts = lines[1].split(" | ")[1:]
     return [[parse_op(o) for o in p.split(";")] for p in parts if p]
+
+
+# ------------------------------------------------------------------ hand-written stress schedules
+def stress_cases():
+    """The schedules stored in corpus/C15/stress.json (regenerate with
+    `/venv/bin/python -c "import sys; sys.path.insert(0, 'harness'); import c15; c15.write_corpus()"`):
+    orphaned streams, foreign menus (identity check), ABA edits around the validator / suggester
+    awaits, cancellation."""
+    off = {"cwt": 0, "hasV": 0, "vwt": 0, "hasS": 0}
+    out = []
+    for spec in ("ext2", "one", "noop1", "chg3", "dup3"):
+        for mode in range(4):
+            for j in range(3):
+                for edit in ([["ins", "a"]], [["delb", 1]], [["cur", 0], ["cur", 1]],
+                             [["ins", "a"], ["delb", 1]], []):
+                    for foreign in ([["hist"]], []):
+                        for nav in ([], [["prev", 1, 0]], [["next", 1, 0]], [["cancel"]]):
+                            ops = ([["startc", mode], ["start", 0]] + [["rel", "c"]] * j + edit + foreign + nav
+                                   + [["rel", "c"]] * 4
+                                   + [["tab"], ["start", 0], ["rel", "c"], ["rel", "c"], ["rel", "c"]])
+                            out.append({"cfg": dict(off), "comp": COMPS[spec], "text": "a", "cur": 1,
+                                        "mode": "deferred", "ops": ops})
+    for edit in ([["ins", "a"]], [["ins", "a"], ["delb", 1]], [["cur", 0]], [["cur", 0], ["cur", 2]],
+                 [["reset", "ab", 2]], [["vsync"]], [["text", "ba"]], [["kill", "v"], ["ins", "b"]],
+                 [["kill", "s"], ["ins", "b"]]):
+        for natural in (False, True):
+            if natural and any(o[0] == "kill" for o in edit):
+                continue
+            ops = [["ins", "b"]] + ([["drain"]] if natural else [["start", 0], ["start", 0], ["start", 0]]) + edit
+            if natural:
+                ops += [["nrel", "v"], ["nrel", "s"], ["nrel", "v"], ["nrel", "s"], ["drain"]]
+            else:
+                ops += [["rel", "v"], ["rel", "s"], ["drain"], ["rel", "v"], ["rel", "s"]]
+            for post in ([], [["delb", 1]], [["cur", 0]], [["text", "zz"]], [["ins", "c"]]):
+                ops2 = ops + post
+                if post:
+                    ops2 = ops2 + ([["nrel", "v"], ["nrel", "s"]] if natural else
+                                   [["drain"], ["rel", "v"], ["rel", "s"]])
+                out.append({"cfg": dict(DEFAULT_CFG), "comp": COMPS["ext2"], "text": "a", "cur": 1,
+                            "valid": [1, 2, 0], "sugg": [1, 2, 1, "!"],
+                            "mode": "natural" if natural else "deferred", "ops": ops2})
+    return out
+
+
+def write_corpus():
+    import json
+    path = os.path.join(core.ROOT, "corpus", ID, "stress.json")
+    os.makedirs(os.path.dirname(path), exist_ok=True)
+    with open(path, "w") as f:
+        json.dump({"note": stress_cases.__doc__, "cases": stress_cases()}, f)
+    return path
 
 
 RA = ["a", "b", "x", " ", "a", "b", "\n"]
@@ -758,11 +812,18 @@ def rand_case(rng, natural):
     return case
 
 
+_ENUMERATED = set()
+
+
 def cases(tier, rng):
-    for skel, alphabet, dq, dt in enum_configs(tier):
-        depth = dq if tier == "quick" else dt
-        for path in enum_paths(skel, alphabet, depth):
-            yield dict(skel, mode="deferred", ops=path)
+    # the enumeration does not depend on the seed: a second call for the same tier (source-change
+    # escalation with extra seeds) only adds random schedules
+    if tier not in _ENUMERATED:
+        _ENUMERATED.add(tier)
+        for skel, alphabet, dq, dt in enum_configs(tier):
+            depth = dq if tier == "quick" else dt
+            for path in enum_paths(skel, alphabet, depth):
+                yield dict(skel, mode="deferred", ops=path)
     nrand = 4000 if tier == "quick" else 80000
     for i in range(nrand):
         yield rand_case(rng, natural=(i % 3 == 2))
